@@ -365,3 +365,47 @@ pub fn load_known(path: &str) -> Known {
     }
     k
 }
+
+// ---------------------------------------------------------------- explicit-state BFS over operation histories
+
+/// Result of replaying one history on a fresh implementation object.
+pub struct Visit { pub fingerprint: u64, pub violation: Option<(String, String)>, pub ops_applied: u64 }
+
+/// Breadth-first search over histories of operations `0..alphabet`. A state *is* the history that reaches it; the real object is
+/// rebuilt by replay. Successors are deduplicated by the fingerprint of the implementation state returned by `visit`.
+/// Returns (states, transitions, frontier size at the depth bound, per-depth new-state counts).
+pub fn bfs_hist<F>(ctx: &Ctx, acc_out: &mut Acc, alphabet: usize, depth: usize, case_of: &(dyn Fn(&[u16]) -> String + Sync), visit: F) -> (u64, u64, u64, Vec<u64>, bool)
+where F: Fn(&[u16]) -> Visit + Sync {
+    let mut seen: HashSet<u64> = HashSet::new();
+    let root = visit(&[]);
+    acc_out.evals += 1;
+    if let Some((sig, d)) = root.violation { acc_out.violation(sig, case_of(&[]), d); }
+    seen.insert(root.fingerprint);
+    let mut frontier: Vec<Vec<u16>> = vec![vec![]];
+    let mut states = 1u64; let mut transitions = 0u64; let mut per_depth = vec![1u64];
+    let mut capped = false;
+    for _d in 1..=depth {
+        let found: Mutex<Vec<(u64, Vec<u16>)>> = Mutex::new(vec![]);
+        let n = frontier.len() as u64 * alphabet as u64;
+        let (acc, cap) = sweep(ctx, n, 16, |k, acc| {
+            let h = &frontier[(k / alphabet as u64) as usize];
+            let mut h2 = h.clone(); h2.push((k % alphabet as u64) as u16);
+            let v = visit(&h2);
+            acc.evals += 1; acc.transitions += v.ops_applied; acc.traces += 1;
+            if let Some((sig, d)) = v.violation { acc.violation(sig, case_of(&h2), d); return; } // do not expand beyond a violating state
+            acc.sample(k, ctx.seed, 10_007, || case_of(&h2));
+            found.lock().unwrap().push((v.fingerprint, h2));
+        });
+        transitions += acc.evals;
+        acc_out.merge(acc);
+        if cap { capped = true; }
+        let mut f = found.into_inner().unwrap();
+        f.sort(); // deterministic choice of the representative history
+        let mut next = vec![];
+        for (fp, h) in f { if seen.insert(fp) { next.push(h); } }
+        states += next.len() as u64; per_depth.push(next.len() as u64);
+        frontier = next;
+        if frontier.is_empty() || capped { break; }
+    }
+    (states, transitions, frontier.len() as u64, per_depth, capped)
+}
